@@ -414,7 +414,11 @@ fn build_request(s: &Setup, r: &Value) -> Built {
           ("scale_n".into(), vec![("n", nv.clone()), ("sc", Val::Num(sc.to_string()))], expected)
         }
         "b" => ("echo_b".into(), vec![("b", bv.clone())], bv.clone()),
-        "snull" => ("echo_s".into(), vec![("s", Val::Null)], Val::Null),
+        "snull" => match pu64(r, "fl") % 3 {
+          0 => ("echo_s".into(), vec![("s", Val::Null)], Val::Null),
+          1 => ("echo_n".into(), vec![("n", Val::Null)], Val::Null),
+          _ => ("echo_b".into(), vec![("b", Val::Null)], Val::Null),
+        },
         "mix" => (
           "echo_mix".into(),
           vec![("s", sv.clone()), ("n", nv.clone()), ("b", bv.clone())],
@@ -2223,7 +2227,9 @@ fn evaluated_directly(expression: &str, inputs: &[(&str, &Val)]) -> Option<Val> 
 }
 
 /// Rewrites the simple values of a TCK input in place: flavour bit 0 - numbers that are integers are
-/// tagged `xsd:integer`, bit 1 - the other numbers `xsd:double`, bit 2 - booleans are spelt 1 / 0.
+/// tagged `xsd:integer`, bit 1 - the other numbers `xsd:double`, bit 2 - booleans are spelt 1 / 0, bit 3 - a nil
+/// leaf also carries a type and a text (the image of `<value xsi:type="xsd:decimal" xsi:nil="true"/>`): it is
+/// nil all the same.
 fn tck_flavour(v: &mut Value, flavour: u64) {
   if flavour == 0 {
     return;
@@ -2231,6 +2237,12 @@ fn tck_flavour(v: &mut Value, flavour: u64) {
   match v {
     Value::Array(items) => items.iter_mut().for_each(|i| tck_flavour(i, flavour)),
     Value::Object(map) => {
+      if flavour & 8 != 0 && map.get("isNil") == Some(&json!(true)) && !map.contains_key("type") && !map.contains_key("items") {
+        let (ty, text) = [("xsd:decimal", ""), ("xsd:string", ""), ("xsd:decimal", "12"), ("xsd:boolean", "true"), ("xsd:date", "")][(flavour as usize / 16) % 5];
+        map.insert("type".into(), json!(ty));
+        map.insert("text".into(), json!(text));
+        return;
+      }
       let ty = map.get("type").and_then(|t| t.as_str()).map(|t| t.to_string());
       let text = map.get("text").and_then(|t| t.as_str()).map(|t| t.to_string());
       if let (Some(ty), Some(text)) = (ty, text) {
@@ -2311,7 +2323,7 @@ fn gen_echo(rng: &mut Rng, m: String) -> Value {
   let number = |rng: &mut Rng| if tck { crate::jsonval::gen_number_exp(rng) } else { crate::jsonval::gen_number(rng) };
   let nums: Vec<String> = (0..n_nums).map(|_| number(rng)).collect();
   let n = number(rng);
-  let fl = if tck && rng.chance(1, 3) { 1 + rng.below(7) } else { 0 };
+  let fl = if tck && rng.chance(1, 3) { 1 + rng.below(127) } else { 0 };
   json!({"kind": "echo", "m": m, "tck": tck, "dec": dec, "s": crate::jsonval::gen_string(rng), "n": n, "b": rng.chance(1, 2), "nums": nums.join(","), "fl": fl})
 }
 
